@@ -16,7 +16,7 @@ import (
 	"rjverif/internal/product"
 	"rjverif/internal/ref"
 	"rjverif/internal/scan"
-	"rjverif/internal/sibling"
+	"strings"
 )
 
 // compositeElems returns the element expressions of a package-level composite literal.
@@ -683,7 +683,7 @@ func (x *Ctx) floatRules(r *core.Result) {
 	e := r.Rule("R04e", "sibling scanners: every literal the RFC 8259 number grammar (= readFloat, R04d) accepts is accepted in full by (*decimal).set — otherwise the slow path would return a syntax error for a valid number")
 	x.setInclusion(r, e)
 	r.CheckFloor(e, 1)
-	f := r.Rule("R04f", "the arithmetic ported from strconv (eiselLemire64, rightShift, leftShift, shouldRoundUp, prefixIsLessThan, RoundedInteger, Shift, trim, floatBits, atof64exact) agrees with GOROOT/src/strconv at every matched position: reported only when the statement shapes match and a constant or operator differs")
+	f := r.Rule("R04f", "the arithmetic ported from strconv (eiselLemire64, rightShift, leftShift, shouldRoundUp, prefixIsLessThan, RoundedInteger, Shift, trim, floatBits, atof64exact and what they call) is the same program as GOROOT's strconv: lockstep co-execution of the two SSA forms along every path — stores, calls, branches, loop heads and results line up and every compared term is equal (names, statement spelling, order of pure computations, if-chains vs switches and code moved into or out of private helpers do not matter)")
 	x.siblingRule(r, f)
 }
 
@@ -787,30 +787,48 @@ func (x *Ctx) setInclusion(r *core.Result, rs *core.RuleStat) {
 
 // siblingRule: R04f.
 func (x *Ctx) siblingRule(r *core.Result, rs *core.RuleStat) {
-	rep, err := sibling.Compare(x.W)
+	rep, err := x.Sibling()
 	if err != nil {
-		r.Notes = append(r.Notes, "R04f: GOROOT strconv sources not available ("+err.Error()+"): nothing compared")
-		rs.Sample("not comparable: " + err.Error())
+		r.Undecided(rs, "strconv", "-", "the reference (package strconv of this GOROOT) cannot be compared: "+err.Error())
 		return
 	}
+	// the port was taken from, and this comparison validated against, the strconv of the go1.23 line; should the
+	// checker ever run with a GOROOT whose strconv has been rewritten, a failure to align says nothing about the port
+	strict := strings.HasPrefix(rep.GoVersion, "go1.23")
 	for _, p := range rep.Pairs {
 		rs.Instances++
 		switch {
+		case p.Absent && p.Comparable:
+			rs.OK(1)
+			rs.Sample(p.Name + ": not a function of the port any more; the reference's body was walked as part of its callers")
 		case !p.Comparable:
-			r.Notes = append(r.Notes, fmt.Sprintf("R04f: %s is not comparable with strconv.%s (%s): nothing reported for it", p.Name, p.Other, p.Why))
-			rs.Sample(p.Name + ": shapes differ from strconv (" + p.Why + "), not compared")
-		case len(p.Diffs) == 0:
-			rs.OK(p.Positions)
-			rs.Sample(fmt.Sprintf("%s: %d matched positions, no constant/operator difference from strconv %s", p.Name, p.Positions, rep.GoVersion))
-		default:
-			for _, d := range p.Diffs {
-				r.Fail(rs, p.Name+":"+d.Path, x.W.Pos(d.Pos), fmt.Sprintf("differs from strconv.%s at a matched position: here `%s`, there `%s` (%s)", p.Other, d.Here, d.There, d.Context))
+			for i, d := range p.Diffs {
+				if i >= 2 {
+					break
+				}
+				r.Fail(rs, fmt.Sprintf("%s:diff#%d", p.Name, i+1), x.W.Pos(d.PosA), fmt.Sprintf("differs from strconv.%s (reference at %s): %s", p.Name, x.W.Pos(d.PosB), d.What))
 			}
-			rs.OK(p.Positions - len(p.Diffs))
+			msg := fmt.Sprintf("%s cannot be aligned with strconv.%s (%s): %s — the port's arithmetic is decided by agreement with the reference, so this is undecided", p.Name, p.Name, rep.GoVersion, p.Why)
+			if strict {
+				pos := p.WhyPos
+				if pos == "" {
+					pos = "-"
+				}
+				r.Undecided(rs, p.Name+":align", pos, msg)
+			} else {
+				r.Notes = append(r.Notes, "R04f: "+msg)
+			}
+		case len(p.Diffs) == 0:
+			rs.OK(p.Events)
+			rs.Sample(fmt.Sprintf("%s: %d paths, %d aligned effects (stores, calls, branches, loop heads, results), all terms equal to strconv %s", p.Name, p.Paths, p.Events, rep.GoVersion))
+		default:
+			for i, d := range p.Diffs {
+				if i >= 4 {
+					break
+				}
+				r.Fail(rs, fmt.Sprintf("%s:diff#%d", p.Name, i+1), x.W.Pos(d.PosA), fmt.Sprintf("differs from strconv.%s (reference at %s): %s", p.Name, x.W.Pos(d.PosB), d.What))
+			}
 		}
-	}
-	if rep.Comparable < 6 {
-		r.Notes = append(r.Notes, fmt.Sprintf("R04f: only %d of %d functions were comparable with this GOROOT's strconv (%s)", rep.Comparable, len(rep.Pairs), rep.GoVersion))
 	}
 }
 
